@@ -530,6 +530,11 @@ class AstInfo:
             True if it should be covered, False otherwise.
             Defaults to True if there is no conditional statement at lineno.
         """
+        # A conditional jump on a line that should not be covered (e.g., the exception match
+        # of an excluded handler or a conditional expression in an excluded branch).
+        if not self.should_cover_line(lineno):
+            return False
+
         for branch_node in nodes_of_class(self.ast, (ast.If, ast.For, ast.While, ast.match_case)):
             start = scope_line_range(branch_node)[0]
             if start == lineno or (
